@@ -20,7 +20,7 @@
 (***************************************************************************)
 EXTENDS Aff3, TLC, Json
 
-CONSTANTS Depth
+CONSTANTS Depth, PoolIx      \* PoolIx: which matrices of the pool are used (C20 runs the scale-and-translate ones: 1, 2, 3, 7, 8)
 
 H2 == << 1, 1 >>                      \* 1/2
 Pool == << ATranslate(<< 3, 0 >>, << -2, 0 >>),
@@ -74,7 +74,7 @@ VARIABLES ts, ix
 vars == << ts, ix >>
 Init == ts = << >> /\ ix = << >>
 Next == /\ Len(ts) < Depth
-        /\ \E i \in 1..Len(Pool) : ts' = Append(ts, Pool[i]) /\ ix' = Append(ix, i)
+        /\ \E i \in PoolIx : ts' = Append(ts, Pool[i]) /\ ix' = Append(ix, i)
 Spec == Init /\ [][Next]_vars
 
 M == AConcat(ts)
